@@ -117,9 +117,13 @@ def maybe_lzma_decompress(path) -> str:
     log(f'Reusing cached file {decompressed_path!r}')
   else:
     log(f'Decompressing {path!r} to {decompressed_path!r}')
+    # Decompress into a temporary name and rename, so that an interrupted
+    # decompression never leaves a truncated file that is reused later.
+    partial_path = decompressed_path + '.partial'
     with lzma.open(path, 'rb') as fi:
-      with open(decompressed_path, 'wb') as fo:
+      with open(partial_path, 'wb') as fo:
         shutil.copyfileobj(fi, fo)
+    os.rename(partial_path, decompressed_path)
   return decompressed_path
 
 
